@@ -83,13 +83,19 @@ def gen_wide(r, length, mode=None, batch=None, allow=None, lossless=False):
                 last_shift = vec.tolist()
             else:  # gradient / time accumulation
                 opts.setdefault("kgrid", 0.5)
+                if lossless:
+                    # non-merging side condition: durations on a 0.01 lattice and a grid far below every gap
+                    opts["kgrid"] = 1e-3
+                    tau_ = float(np.round(pick(r, 0.5, 5), 2))
+                else:
+                    tau_ = pick(r, 0.5, 5)
                 if r.random() < 0.7:
                     gr = (r.integers(-3, 4, size=kdim)).astype(float)
                     if not gr.any():
                         gr[0] = 1.0
-                    prog_.append({"op": "G", "tau": pick(r, 0.5, 5), "gradient": gr.tolist()})
+                    prog_.append({"op": "G", "tau": tau_, "gradient": gr.tolist()})
                 else:
-                    prog_.append({"op": "C", "tau": pick(r, 0.5, 5)})
+                    prog_.append({"op": "C", "tau": tau_})
                 have_float = True
                 last_shift = None
         elif k == "D":
